@@ -129,23 +129,6 @@ def checkWith {σ : Type} (m0 : σ) (mstep : σ → Ev → Option σ) (sc : Driv
             | none =>
               res := { res with modelDiff := some (i, s!"event=[{ln.raw}] is not a transition of the loop model") }
               m := none
-          -- the API-level ledger (`Sonic.Spec.Ledger`, the one the model is proved to refine) reads the same events
-          match ld with
-          | none => pure ()
-          | some lst =>
-            if !Sonic.Spec.Ledger.usageOk lst e then
-              ld := none   -- outside the documented usage (the harness does not produce this): the ledger says nothing
-            else
-              match Sonic.Spec.Ledger.step lst e with
-              | some lst' => ld := some lst'
-              | none =>
-                let k := match e with
-                  | .enter .. => "ledger-callback-not-owed"
-                  | .ret (.pending ..) => "ledger-pending-differs-from-operations-in-flight"
-                  | _ => "ledger-structure"
-                let d := s!"key=loop.{k} event=[{ln.raw}] is rejected by the API-level ledger (owed={lst.owed.map (·.id)})"
-                if res.specFail.isNone then res := { res with specFail := some (i, d) } else res := { res with more := res.more ++ [d] }
-                ld := none
           match s with
           | none => pure ()
           | some st =>
@@ -181,6 +164,23 @@ def checkWith {σ : Type} (m0 : σ) (mstep : σ → Ev → Option σ) (sc : Driv
                     match e with
                     | .enter op _ _ _ _ => skipExit := op :: skipExit
                     | _ => pure ()
+          -- the API-level ledger (`Sonic.Spec.Ledger`, the one the model is proved to refine) reads the same events
+          match ld with
+          | none => pure ()
+          | some lst =>
+            if !Sonic.Spec.Ledger.usageOk lst e then
+              ld := none   -- outside the documented usage (the harness does not produce this): the ledger says nothing
+            else
+              match Sonic.Spec.Ledger.step lst e with
+              | some lst' => ld := some lst'
+              | none =>
+                let k := match e with
+                  | .enter .. => "ledger-callback-not-owed"
+                  | .ret (.pending ..) => "ledger-pending-differs-from-operations-in-flight"
+                  | _ => "ledger-structure"
+                let d := s!"key=loop.{k} event=[{ln.raw}] is rejected by the API-level ledger (owed={lst.owed.map (·.id)})"
+                if res.specFail.isNone then res := { res with specFail := some (i, d) } else res := { res with more := res.more ++ [d] }
+                ld := none
   return res
 
 def check (sc : Driver.Script) : Driver.Result := checkWith () (fun _ _ => some ()) sc
